@@ -234,6 +234,32 @@ fn ex_escaped(_w: &mut ZA) {
     rec("ex_escaped", String::new());
 }
 
+// multi-group parameters followed by further arguments
+#[given(expr = "{string} owes {int} coin(s)")]
+fn ex_string_then_int(_w: &mut ZA, who: String, n: u32) {
+    rec("ex_string_then_int", format!("{who:?},{n:?}"));
+}
+
+#[when(expr = "{string} pays {string} at {word}")]
+async fn ex_two_strings(_w: &mut ZA, from: String, to: String, place: String) {
+    rec("ex_two_strings", format!("{from:?},{to:?},{place:?}"));
+}
+
+#[when(expr = "{qty} of {word} for {int}")]
+fn ex_custom_then_more(_w: &mut ZA, q: Qty, what: String, price: i32) {
+    rec("ex_custom_then_more", format!("{q:?},{what:?},{price:?}"));
+}
+
+#[then(expr = "{string} likes {string} and {word}")]
+fn ex_multi_slice(_w: &mut ZA, xs: &[String]) {
+    rec("ex_multi_slice", format!("{xs:?}"));
+}
+
+#[then(regex = r"^(?:a(\d)|b(\d)) then (\w+)$")]
+fn re_alt_groups(_w: &mut ZA, a: String, b: String, c: String) {
+    rec("re_alt_groups", format!("{a:?},{b:?},{c:?}"));
+}
+
 // ---- second world ---------------------------------------------------------
 #[given("a literal step")]
 fn b_lit(_w: &mut ZB) {
@@ -320,6 +346,15 @@ fn defs() -> Vec<Def> {
         Def { world: 'A', kw: When, id: "multi", how: Re(r"^(\S+) is (\d+)$"), expect: |g, _| g[1].parse::<i64>().map(|n| format!("{:?},{n:?}", g[0])).map_err(|_| "can not be parsed".into()) },
         Def { world: 'A', kw: Then, id: "ex_anonymous", how: Expr("anything {}", r"^anything (.*)$"), expect: |g, _| Ok(format!("{:?}", g[0])) },
         Def { world: 'A', kw: Then, id: "ex_escaped", how: Expr("escaped \\{brace} and \\(paren)", r"^escaped \{brace\} and \(paren\)$"), expect: none },
+        Def { world: 'A', kw: Given, id: "ex_string_then_int", how: Expr("{string} owes {int} coin(s)", r#"^(?:"([^"\\]*(?:\\.[^"\\]*)*)"|'([^'\\]*(?:\\.[^'\\]*)*)') owes ((?:-?\d+)|(?:\d+)) coin(?:s)?$"#), expect: |g, _| g[2].parse::<u32>().map(|n| format!("{:?},{n:?}", first_nonempty(&[&g[0], &g[1]]))).map_err(|_| "can not be parsed".into()) },
+        Def { world: 'A', kw: When, id: "ex_two_strings", how: Expr("{string} pays {string} at {word}", r#"^(?:"([^"\\]*(?:\\.[^"\\]*)*)"|'([^'\\]*(?:\\.[^'\\]*)*)') pays (?:"([^"\\]*(?:\\.[^"\\]*)*)"|'([^'\\]*(?:\\.[^'\\]*)*)') at ([^\s]+)$"#), expect: |g, _| Ok(format!("{:?},{:?},{:?}", first_nonempty(&[&g[0], &g[1]]), first_nonempty(&[&g[2], &g[3]]), g[4])) },
+        Def { world: 'A', kw: When, id: "ex_custom_then_more", how: Expr("{qty} of {word} for {int}", r"^(?:(\d+) pcs|(few|many)) of ([^\s]+) for ((?:-?\d+)|(?:\d+))$"), expect: |g, _| {
+            let s = first_nonempty(&[&g[0], &g[1]]);
+            let q = match s { "few" | "many" => format!("Vague({s:?})"), n => match n.parse::<u32>() { Ok(n) => format!("Exact({n})"), Err(_) => return Err("can not be parsed".into()) } };
+            g[3].parse::<i32>().map(|p| format!("{q},{:?},{p:?}", g[2])).map_err(|_| "can not be parsed".into())
+        } },
+        Def { world: 'A', kw: Then, id: "ex_multi_slice", how: Expr("{string} likes {string} and {word}", r#"^(?:"([^"\\]*(?:\\.[^"\\]*)*)"|'([^'\\]*(?:\\.[^'\\]*)*)') likes (?:"([^"\\]*(?:\\.[^"\\]*)*)"|'([^'\\]*(?:\\.[^'\\]*)*)') and ([^\s]+)$"#), expect: |g, _| Ok(format!("{:?}", vec![first_nonempty(&[&g[0], &g[1]]).to_owned(), first_nonempty(&[&g[2], &g[3]]).to_owned(), g[4].clone()])) },
+        Def { world: 'A', kw: Then, id: "re_alt_groups", how: Re(r"^(?:a(\d)|b(\d)) then (\w+)$"), expect: |g, _| Ok(format!("{:?},{:?},{:?}", g[0], g[1], g[2])) },
         Def { world: 'B', kw: Given, id: "b_lit", how: Literal("a literal step"), expect: none },
         Def { world: 'B', kw: When, id: "b_re", how: Re(r"^only b (\d+)$"), expect: |g, _| g[0].parse::<u16>().map(|n| format!("{n:?}")).map_err(|_| "can not be parsed".into()) },
         Def { world: 'B', kw: Then, id: "b_re", how: Re(r"^only b (\d+)$"), expect: |g, _| g[0].parse::<u16>().map(|n| format!("{n:?}")).map_err(|_| "can not be parsed".into()) },
@@ -356,6 +391,12 @@ const CORPUS: &[&str] = &[
     "order 5 pcs now", "order few now", "order many now", "order some now", "order 5 now", "order 99999999999 pcs now",
     "pay in USD", "pay in usd", "pay in EURO", "1 and 2 and x", "-1 and 22 and yy", "1 and x and 2", "all of a b c", "all of a b",
     "foo is 5", "foo is -5", "foo is bar", "anything goes here", "anything ", "anything", "escaped {brace} and (paren)", "escaped brace and paren", "escaped \\{brace} and \\(paren)",
+    // multi-group parameters followed by more arguments
+    "\"alice\" owes 5 coins", "'alice' owes 1 coin", "\"alice\" owes x coins", "alice owes 5 coins",
+    "\"a\" pays \"b\" at noon", "'a' pays \"b\" at noon", "\"a\" pays 'b' at noon", "'a' pays 'b' at noon", "\"\" pays \"b\" at noon",
+    "5 pcs of apples for 3", "few of pears for -2", "many of x for y", "5 of apples for 3",
+    "\"x\" likes 'y' and few", "'x' likes \"y\" and 7", "\"x\" likes y and none",
+    "a1 then go", "b2 then stop", "c3 then no",
     // second world
     "only b 7", "only b 70000", "only b x",
     "",
